@@ -306,7 +306,7 @@ def run_case(ctx, inp):
             info["cause"] = "exception"
             res.violation("property-violation",
                           "msd raised %s: %s (pid %d, %d rows)" % (type(e).__name__, e, pid, len(rows)),
-                          impl=repr(e), model=m["rows"][:300],
+                          impl=repr(e), model=m["rows"][:300], broken="defect-class msd/exception",
                           signature=dict(fn="msd", what="exception", path=path, unsorted=unsorted))
             continue
         scale = max([abs(Fraction(x, 8) * mpp) ** 2 for _, pos in rows for x in pos] + [0])
@@ -359,13 +359,19 @@ def run_case(ctx, inp):
                 what = "zero-for-nan"
             info["cause"] = what
             first = (bad + nan_bad)[0]
-            res.violation("property-violation",
+            # the property statement speaks of the squared displacement, the index and NaN; a
+            # mismatch confined to the mean-displacement columns <c> is reported as a broken
+            # correspondence (model vs code), not as a violation of the statement
+            only_disp = all(k in ["<%s>" % c for c in cols] for _, k, _, _ in bad + nan_bad)
+            res.violation("correspondence-break" if only_disp else "property-violation",
                           "msd (pid %d, %s path%s): lag %d column %s is %r, all-pairs definition "
                           "gives %r (%d bad cells)"
                           % (pid, path, ", rows not in frame order" if unsorted else "",
                              first[0], first[1], first[2], first[3], len(bad) + len(nan_bad)),
                           impl=dict(cells=[list(map(str, b)) for b in (bad + nan_bad)[:6]]),
                           model=m["rows"][:300],
+                          broken="MSD.fftRow / gapsRow (mean displacement column)" if only_disp
+                          else "defect-class msd/" + what,
                           signature=dict(fn="msd", what=what, path=path))
         # ---- correspondence with the model: set of lags, N column
         corr = None
@@ -450,8 +456,8 @@ def _check_ensemble(ctx, inp, res, df, per, hdr, cols, pos_columns, mpp, fps, ML
     except Exception as e:
         im = None
         res.violation("property-violation", "imsd raised %s: %s" % (type(e).__name__, e),
-                      impl=repr(e), signature=dict(fn="imsd", what="exception",
-                                                   cause=",".join(causes) or "own"))
+                      impl=repr(e), broken="defect-class imsd/exception",
+                      signature=dict(fn="imsd", what="exception", cause=",".join(causes) or "own"))
     if im is not None:
         res.stat("imsd_checked")
         bad = []
@@ -478,10 +484,13 @@ def _check_ensemble(ctx, inp, res, df, per, hdr, cols, pos_columns, mpp, fps, ML
                                 None if exp is NAN else float(exp)))
         if bad:
             cause = ",".join(causes) if not all_ok else "own"
-            res.violation("property-violation",
+            disp_stat = stat in ["<%s>" % c for c in cols]
+            res.violation("correspondence-break" if disp_stat else "property-violation",
                           "imsd[%s]: lag %s particle %s is %r, per-particle definition gives %r "
                           "(%d bad cells)" % (stat, bad[0][0], bad[0][1], bad[0][2], bad[0][3], len(bad)),
                           impl=[list(map(str, b)) for b in bad[:6]], model=m["imsd"][:300],
+                          broken="MSD.imsdCell (mean displacement statistic)" if disp_stat
+                          else ("defect-class imsd/value" if cause == "own" else "defect-class msd/" + cause),
                           signature=dict(fn="imsd", what="value", cause=cause))
         elif stat == "msd":
             # correspondence with the model matrix
@@ -506,6 +515,7 @@ def _check_ensemble(ctx, inp, res, df, per, hdr, cols, pos_columns, mpp, fps, ML
         except Exception as e:
             res.violation("property-violation", "emsd(detail=%s) raised %s: %s"
                           % (detail, type(e).__name__, e), impl=repr(e),
+                          broken="defect-class emsd/exception",
                           signature=dict(fn="emsd", what="exception", cause=",".join(causes) or "own"))
             continue
         res.stat("emsd_checked")
@@ -555,11 +565,14 @@ def _check_ensemble(ctx, inp, res, df, per, hdr, cols, pos_columns, mpp, fps, ML
                 what, cause = "noncontributing-weight", "own"
             else:
                 what, cause = "value", "own"
-            res.violation("property-violation",
+            only_disp = all(b[1] in ["<%s>" % c for c in cols] for b in bad)
+            res.violation("correspondence-break" if only_disp else "property-violation",
                           "emsd(detail=%s): lag %s column %s is %r, weighted mean over contributing "
                           "particles gives %r (%d bad cells)"
                           % (detail, bad[0][0], bad[0][1], bad[0][2], bad[0][3], len(bad)),
                           impl=[list(map(str, b)) for b in bad[:6]], model=m["emsd"][:300],
+                          broken="MSD.emsdAt (mean displacement column)" if only_disp
+                          else ("defect-class emsd/" + what if cause == "own" else "defect-class msd/" + cause),
                           signature=dict(fn="emsd", what=what, cause=cause))
         elif detail:
             for lag in range(1, maxL + 1):
